@@ -61,9 +61,32 @@ READERS of trigger columns.  Which trigger cells are recalculated must not depen
    groups and counts).  The Lean model has no evaluation order (readers are invisible to it): the
    tie checks that the engine's evaluated set stays the model's, reader or not; that nested first
    visits do not change the outcome is established by the direct oracle only.
-ASSUMPTIONS: recalcDeps are plain data columns, formula columns over plain data columns, or the
-   column itself (no trigger column depends on another one, also not through a reader); values
-   written are of the column's type; row ids within one request are distinct.
+TRIGGER DEPENDENCIES AND LOOKUPS IN TRIGGER FORMULAS (the "lookup family": `run_lk_history`,
+   `lookup_witnesses`).  Documents with a second table K(k, v) and, in T, a trigger column L whose
+   FORMULA performs a lookup (`K.lookupOne(k=$A).v`, `len(K.lookupRecords(k=$A))`, a counter that also
+   looks up, and the same into T itself: `T.lookupOne(A=$C)`), a trigger column M (counter, DEFAULT) that
+   lists L in its recalcDeps (M's id sorting before or after L's), optionally N listing M, and L
+   optionally listing itself; bundles edit the looked-up table (change the key of a matched record, add /
+   remove records with looked-up keys, non-key cells), edit T, do both, or undo.  A lookup made by a
+   trigger formula is NOT a dependency: the property lets L be recalculated only through its recalcDeps /
+   new record / manual update, so an edit of K never recalculates anything in T.  For a recalcDeps cell
+   that is itself a trigger cell (L for M) the clauses are read on the REAL outcome of that cell: it
+   "changes value" when it is written with a different value or recomputed (evaluated, as observed by
+   the tracer) to a different value -> M MUST be recalculated; it was "written or recomputed" when the
+   request names it or the engine evaluated it -> otherwise M must NOT be recalculated; evaluated to the
+   same value / written with the same value: either.  A recomputation happens at the end of the bundle:
+   it is attributed to the only user action of the bundle that names rows of T (an explicit value for M
+   in that user action wins); when SEVERAL user actions of a bundle name rows of T the attribution is
+   ambiguous in the property text and such a recomputed dependency only moves the cell out of the
+   "never" clause (MAY) - the lookup family generates at most one T-naming user action per bundle, except
+   that [edit of K, edit of T] bundles are generated in both orders (K edits do not name rows of T).
+   The Lean model has one trigger column per op and no lookups: columns with another trigger column in
+   recalcDeps are judged by the DIRECT ORACLE only (tie skipped, counter tie_skipped_trigger_dep); L
+   itself (plain recalcDeps) is still tied, with K edits abstracted as user actions that do not touch T.
+ASSUMPTIONS: recalcDeps are plain data columns, formula columns over plain data columns, the column
+   itself, or (lookup family only) another trigger column, without cycles between distinct trigger
+   columns; no trigger column depends on a READER of a trigger column; values written are of the column's
+   type; row ids within one request are distinct.
 """
 import copy
 import json
@@ -109,6 +132,7 @@ class Live(object):
     self.tref = None
     self.residue = set()     # rows mentioned by the immediately preceding bundle if it FAILED
     self.nested = []         # coverage only, see _instrument
+    self.last_aux = []       # the other user tables as they were after the last successful bundle
     self._instrument()
 
   def _tracer(self, col, rec):
@@ -521,10 +545,20 @@ def describe(bundle, before, res):
 NO, MAY, MUST = 0, 1, 2
 
 
-def reference(trig, descs, before, after, ups):
+def reference(trig, descs, before, after, ups, tdep=None):
   """Independent reading of the property for trigger column `trig` (dict ref/when/deps as stored
-  BEFORE the bundle).  Returns {row: dict(status, notes...)} for the rows alive after the bundle."""
+  BEFORE the bundle).  Returns {row: dict(status, notes...)} for the rows alive after the bundle.
+  `tdep` = {ref of ANOTHER trigger column: (rows of it the real engine recomputed in this bundle, those
+  of them whose value the recomputation changed)}: what the clauses "changes value" / "written or
+  recomputed" need to know about a recalcDeps cell that is itself a trigger cell (see TRIGGER
+  DEPENDENCIES in the module docstring)."""
   c = trig["ref"]
+  tdep = tdep or {}
+  # user actions that name rows of T; a recomputation happens at the end of the bundle only, so it can
+  # be attributed to a user action only when there is at most one such user action
+  touching = [i for i, d in enumerate(descs) if d["k"] in ("add", "update", "remove") or
+              (d["k"] == "doc" and any(s_["k"] in ("add", "update", "remove") for s_ in d["steps"]))]
+  single_touch = len(touching) <= 1
   when, deps = trig["when"], list(trig["deps"])
   rows_after = set(after["rows"])
   st = {}          # row -> status
@@ -535,7 +569,7 @@ def reference(trig, descs, before, after, ups):
 
   def note(r):
     return info.setdefault(r, {"prot_at": None, "prot_kind": None, "prot_same": False, "prot_trim": False, "stale": False,
-                               "readd": False, "trig_at": None, "trig_seen": False, "trig_with_prot": False})
+                               "readd": False, "trig_at": None, "trig_seen": False, "trig_with_prot": False, "tdep_must": False})
 
   def upstream_writes(r, f):
     k = 0
@@ -594,6 +628,12 @@ def reference(trig, descs, before, after, ups):
                   must.add(r)
                 else:
                   may.add(r)
+              elif dep != c and dep in tdep and r in tdep[dep][0]:
+                # a recalcDeps cell that is a trigger cell and was RECOMPUTED (at the end of the bundle)
+                if single_touch and r in tdep[dep][1]:
+                  must.add(r); note(r)["tdep_must"] = True
+                else:
+                  may.add(r)
           elif when == 2 and not s["doc"]:
             if any((r, x) in diff for x in s["cols"]):
               must.add(r)
@@ -624,6 +664,26 @@ def reference(trig, descs, before, after, ups):
     for r in may - prot - must:
       if st.get(r, NO) != MUST:
         st[r] = MAY
+  if when == 0:
+    named = set()
+    for d in descs:
+      for s in (d["steps"] if d["k"] == "doc" else [d]):
+        if s["k"] in ("add", "update"):
+          named.update(s["rows"])
+    for dep in deps:
+      if dep == c or dep not in tdep:
+        continue
+      for r in tdep[dep][0]:
+        # recomputed in a row that no UPDATE of this bundle handled above (no user action names the row,
+        # or several do): the recalcDeps cell was recomputed, so the row is not in the "never" clause;
+        # it is in the "whenever" clause if nothing of the bundle set the trigger cell and the value changed
+        if r in named and single_touch:
+          continue
+        if r not in named and r in tdep[dep][1]:
+          st[r] = MUST
+          note(r)["tdep_must"] = True
+        elif st.get(r, NO) == NO and note(r)["prot_at"] is None:
+          st[r] = MAY
   out = {}
   for r in rows_after:
     out[r] = dict(note(r), status=st.get(r, NO), n=n)
@@ -790,16 +850,30 @@ def judge_bundle(live, bundle, J, bi):
       ev.setdefault(ref, []).append(r)
   after_by_ref = {c["ref"]: c for c in after["cols"]}
   interesting = False
+  # what happened to each trigger column (REAL outcome): rows recomputed, rows whose value that changed
+  tinfo = {}
+  for t_ in trigs:
+    d_ = t_["ref"]
+    if d_ in after_by_ref and is_trigger(after_by_ref[d_]):
+      ed_ = set(ev.get(d_, []))
+      tinfo[d_] = (ed_, set(r for r in ed_ if not same_value(cur.get((r, d_), "<none>"), after["cells"].get((r, d_), "<none>"))))
+  refs = {}
   for trig in trigs:
     c = trig["ref"]
     if c not in after_by_ref or not is_trigger(after_by_ref[c]):
       continue
+    has_tdep = trig["when"] == 0 and any(d_ != c and d_ in tinfo for d_ in trig["deps"])
     rows_ev = ev.get(c, [])
     if len(rows_ev) != len(set(rows_ev)):
       J.findings.append(("trigger cell evaluated more than once in one bundle",
                          "column %s rows %r bundle %r" % (trig["id"], rows_ev, bundle), bi))
     E = set(rows_ev)
-    ref = reference(trig, descs, before, after, ups)
+    ref = reference(trig, descs, before, after, ups, tinfo)
+    refs[c] = ref
+    if has_tdep:
+      J.count("tdep_cells_judged", len(ref))
+      J.count("tdep_cells_must_not", sum(1 for nt in ref.values() if nt["status"] == NO))
+      J.count("tdep_cells_must_because_trigger_dep_recomputed", sum(1 for nt in ref.values() if nt["tdep_must"]))
     must = set(r for r, nt in ref.items() if nt["status"] == MUST)
     may = set(r for r, nt in ref.items() if nt["status"] in (MAY, MUST))
     J.count("cells_judged", len(ref))
@@ -850,14 +924,20 @@ def judge_bundle(live, bundle, J, bi):
       kinds = reader_kinds(trig, before["cols"], aux)
       for k in sorted(kinds) or ["none"]:
         J.count("xadd_reader:" + k)
-    op = None if flags - {"values converted"} else model_op(trig, descs, before, ups)
+    op = None if (flags - {"values converted"} or has_tdep) else model_op(trig, descs, before, ups)
     if "after failed bundle" in flags:
       J.count("bundles_after_failed")
-    if op is None:
+    if has_tdep:
+      # the model has ONE trigger column per op: a recalcDeps column that is itself a trigger column is
+      # outside what it represents (direct oracle only)
+      J.count("tie_skipped_trigger_dep")
+    elif op is None:
       J.count("tie_skipped")
     else:
       J.ops.append((op, sorted(E), bi, c, False))
       J.py_spec.append((sorted(must), sorted(may)))
+  lookup_coverage(J, trigs, refs, before, after, live.last_aux, aux)
+  live.last_aux = aux
   if interesting:
     J.nontrivial.append(json.dumps(bundle, sort_keys=True, default=str))
     if len(J.samples) < 2:
@@ -865,9 +945,71 @@ def judge_bundle(live, bundle, J, bi):
   return res
 
 
+RE_TLOOK = re.compile(r"\b(\w+)\.lookup(?:One|Records)\((\w+)=\$(\w+)\)")
+_MISSING = ("<missing>",)
+
+
+def lookup_coverage(J, trigs, refs, before, after, aux_before, aux_after):
+  """COVERAGE ONLY (no verdict depends on it): trigger cells whose FORMULA looked up a key of which this
+  bundle changed the key set in the looked-up table (a record with that key was added, removed, or got /
+  lost the key), and how many of them - and of the trigger cells that list them in recalcDeps - the
+  reference puts into the "never" clause for this bundle."""
+  looks = [(t, RE_TLOOK.search(t["formula"] or "")) for t in trigs]
+  looks = [(t, m) for (t, m) in looks if m]
+  if not looks:
+    return
+  J.count("lk_bundles")
+  b_id = {c["id"]: c["ref"] for c in before["cols"]}
+  a_id = {c["id"]: c["ref"] for c in after["cols"]}
+  alive = [r for r in after["rows"] if r in set(before["rows"])]
+  def keymaps(tid, kc):
+    if tid == T:
+      if kc not in b_id or kc not in a_id:
+        return None
+      return ({r: before["cells"].get((r, b_id[kc])) for r in before["rows"]},
+              {r: after["cells"].get((r, a_id[kc])) for r in after["rows"]})
+    out = []
+    for aux in (aux_before, aux_after):
+      t = [x for x in aux if x["id"] == tid]
+      out.append(dict(zip(t[0]["rows"], t[0]["cols"].get(kc, []))) if t else {})
+    return tuple(out)
+  hits = {}
+  for (t, m) in looks:
+    km = keymaps(m.group(1), m.group(2))
+    src = m.group(3)
+    if km is None or src not in b_id or src not in a_id:
+      continue
+    kb, ka = km
+    affected = set()
+    for r in set(kb) | set(ka):
+      x, y = kb.get(r, _MISSING), ka.get(r, _MISSING)
+      if not same_value(x, y) or type(x) != type(y):
+        affected.update(v for v in (x, y) if v is not _MISSING and _plain(v))
+    if not affected:
+      continue
+    rows = set(r for r in alive if before["cells"].get((r, b_id[src])) in affected or after["cells"].get((r, a_id[src])) in affected)
+    if rows:
+      hits[t["ref"]] = rows
+  if not hits:
+    return
+  J.count("lk_keychange_bundles")
+  for d, rows in hits.items():
+    J.count("lk_keychange_lookup_cells", len(rows))
+    rd = refs.get(d, {})
+    J.count("lk_keychange_lookup_cells_must_not", sum(1 for r in rows if r in rd and rd[r]["status"] == NO))
+    for t in trigs:
+      if t["when"] != 0 or d not in t["deps"]:
+        continue
+      rc = refs.get(t["ref"], {})
+      n = sum(1 for r in rows if r in rc and rc[r]["status"] == NO)
+      J.count("lk_keychange_selfdep_cells_must_not" if t["ref"] == d else "lk_keychange_dependent_cells_must_not", n)
+
+
 def bump(base, trig):
   f = trig["formula"]
   try:
+    if f in LK_COUNTERS:
+      return (base or 0) + 1
     if f == FORM_INT:
       return (base or 0) + 1
     if f == FORM_TXT:
@@ -888,6 +1030,14 @@ def same_value(a, b):
 
 FORM_INT = "(value or 0) + 1"
 FORM_TXT = "(value or '') + '!'"
+# trigger formulas that PERFORM a lookup (into the other table K, or into T itself)
+FORM_LKC = "(value or 0) + 1 + 0 * len(K.lookupRecords(k=$A))"
+FORM_LKV = "K.lookupOne(k=$A).v"
+FORM_LKN = "len(K.lookupRecords(k=$A))"
+FORM_LSC = "(value or 0) + 1 + 0 * T.lookupOne(A=$C).id"
+FORM_LSV = "T.lookupOne(A=$C).C"
+LK_FORMULAS = (FORM_LKC, FORM_LKV, FORM_LKN, FORM_LSC, FORM_LSV)
+LK_COUNTERS = (FORM_LKC, FORM_LSC)
 FORMULA_TEMPLATES = ["$%s * 2", "($%s or 0) + 1", "$%s + $%s", "$%s * 0 + 7", "min($%s, 3)"]
 
 
@@ -1276,6 +1426,253 @@ def run_history(seed_key, n_bundles, trig_specs=None):
   return live, J
 
 
+# ------------------------------------------------------------------------------- lookup family
+# Trigger formulas that PERFORM lookups, trigger columns that list ANOTHER trigger column in recalcDeps,
+# and edits of the looked-up table that change lookup keys (see TRIGGER DEPENDENCIES in the docstring).
+
+LK_KEYS = [0, 1, 2, 3, 4, 5, 6]
+
+
+def lk_add_trigger(live, J, name, formula, when, deps):
+  """deps: column ids of T ("self" = the column itself); returns the column's ref or None."""
+  res = judge_bundle(live, [["AddColumn", T, name, {"type": "Int", "isFormula": False, "formula": formula, "recalcWhen": when}]],
+                     J, len(live.log))
+  if not res.ok:
+    return None
+  ref = res.ret[0]["colRef"]
+  if deps:
+    by_id = {c["id"]: c["ref"] for c in live.read()["cols"]}
+    refs = [ref if d == "self" else by_id[d] for d in deps if d == "self" or d in by_id]
+    judge_bundle(live, [["UpdateRecord", "_grist_Tables_column", ref, {"recalcDeps": ["L"] + refs}]], J, len(live.log))
+  return ref
+
+
+def lk_setup(live, J, spec, k_rows, t_rows):
+  """K(k Int, v Int) and T(A Int, C Int, D Text, F = $A * 2) + the lookup trigger column `L` (formula
+  spec["lform"], recalcWhen spec["lwhen"], recalcDeps spec["ldeps"]) + the trigger column `M` (counter
+  formula, DEFAULT, recalcDeps spec["mdeps"] where "L" stands for the lookup column) + optionally `N`
+  (counter, DEFAULT, recalcDeps [M]).  spec["mfirst"]: M's id sorts before L's (the engine evaluates in
+  id order).  Returns {"L": id, "M": id or None, "N": id or None}."""
+  judge_bundle(live, [["AddTable", "K", [{"id": "k", "type": "Int", "isFormula": False, "formula": ""},
+                                         {"id": "v", "type": "Int", "isFormula": False, "formula": ""}]]], J, len(live.log))
+  judge_bundle(live, [["BulkAddRecord", "K", [None] * len(k_rows), {"k": [x[0] for x in k_rows], "v": [x[1] for x in k_rows]}]],
+               J, len(live.log))
+  judge_bundle(live, [["AddTable", T, [{"id": "A", "type": "Int", "isFormula": False, "formula": ""},
+                                       {"id": "C", "type": "Int", "isFormula": False, "formula": ""},
+                                       {"id": "D", "type": "Text", "isFormula": False, "formula": ""},
+                                       {"id": "F", "type": "Int", "isFormula": True, "formula": "$A * 2"}]]], J, len(live.log))
+  lid, mid = ("Bz1", "Ba2") if spec.get("mfirst") else ("Ba1", "Bz2")
+  ids = {"L": lid, "M": None, "N": None}
+  lk_add_trigger(live, J, lid, spec["lform"], spec["lwhen"], spec["ldeps"])
+  if spec.get("mdeps"):
+    ids["M"] = mid
+    lk_add_trigger(live, J, mid, FORM_INT, 0, [lid if d == "L" else d for d in spec["mdeps"]])
+    if spec.get("chain"):
+      ids["N"] = "Bn3"
+      lk_add_trigger(live, J, "Bn3", FORM_INT, 0, [mid])
+  judge_bundle(live, [["BulkAddRecord", T, [None] * len(t_rows), {"A": [x[0] for x in t_rows], "C": [x[1] for x in t_rows]}]],
+               J, len(live.log))
+  J.count("lk_documents")
+  J.count("lk_doc_formula:" + ("K." if "K." in spec["lform"] else "T.") + ("counter" if spec["lform"] in LK_COUNTERS else "value"))
+  J.count("lk_doc_L:%s%s" % (WHEN_NAME[spec["lwhen"]], "+self" if "self" in spec["ldeps"] else ""))
+  if ids["M"]:
+    J.count("lk_doc_M_before_L" if spec.get("mfirst") else "lk_doc_M_after_L")
+  return ids
+
+
+def lk_random_spec(rng):
+  lform = rng.choice(LK_FORMULAS)
+  key = "A" if "K." in lform else "C"
+  lwhen, ldeps = rng.choice([(0, [key]), (0, [key]), (0, [key, "self"]), (0, ["self"]), (0, [key, "D"]), (2, []), (1, []), (0, [])])
+  mdeps = rng.choice([["L"], ["L"], ["L", "self"], ["L", "D"], ["L", "C" if key == "A" else "A"], None])
+  if mdeps is None and "self" not in ldeps:
+    mdeps = ["L"]
+  return {"lform": lform, "lwhen": lwhen, "ldeps": ldeps, "mdeps": mdeps, "mfirst": rng.random() < 0.5,
+          "chain": bool(mdeps) and rng.random() < 0.3}
+
+
+class LkGen(object):
+  """Bundles for the lookup family: edits of the looked-up table (mostly of KEYS some trigger cell looked
+  up), edits of T, both in one bundle (at most ONE user action of a bundle names rows of T unless the
+  looked-up table is T itself), and undo."""
+
+  def __init__(self, rng, ids, self_table):
+    self.rng = rng
+    self.ids = ids
+    self.self_table = self_table
+    self.last = None
+
+  def k_state(self, live):
+    for t in live.last_aux:
+      if t["id"] == "K":
+        return dict(zip(t["rows"], t["cols"]["k"]))
+    return {}
+
+  def col(self, st, cid):
+    ref = [c["ref"] for c in st["cols"] if c["id"] == cid][0]
+    return {r: st["cells"].get((r, ref)) for r in st["rows"]}
+
+  def other(self, old, prefer=()):
+    rng = self.rng
+    pool = [x for x in (list(prefer) if prefer and rng.random() < 0.6 else LK_KEYS) if x != old] or [x for x in LK_KEYS if x != old]
+    return rng.choice(pool)
+
+  def k_edit(self, live, st):
+    """(kind, user action) on the looked-up table K."""
+    rng = self.rng
+    ks = self.k_state(live)
+    used = set(v for v in self.col(st, "A").values() if isinstance(v, int))
+    rows = sorted(ks)
+    hot = [r for r in rows if ks[r] in used]
+    x = rng.random()
+    if x < 0.45 and rows:
+      r = rng.choice(hot) if hot and rng.random() < 0.75 else rng.choice(rows)
+      return "k_key", ["UpdateRecord", "K", r, {"k": self.other(ks[r], used)}]
+    if x < 0.55 and len(rows) >= 2:
+      rs = rng.sample(rows, 2)
+      return "k_key_bulk", ["BulkUpdateRecord", "K", rs, {"k": [self.other(ks[r], used) for r in rs], "v": [rng.randint(0, 99) for _ in rs]}]
+    if x < 0.67 and rows:
+      return "k_nonkey", ["UpdateRecord", "K", rng.choice(rows), {"v": rng.randint(100, 199)}]
+    if x < 0.85 or len(rows) < 3:
+      return "k_add", ["AddRecord", "K", None, {"k": rng.choice(sorted(used) or LK_KEYS) if rng.random() < 0.7 else rng.choice(LK_KEYS),
+                                                "v": rng.randint(0, 99)}]
+    return "k_remove", ["RemoveRecord", "K", rng.choice(hot) if hot and rng.random() < 0.7 else rng.choice(rows)]
+
+  def t_edit(self, st):
+    """(kind, user action) on T."""
+    rng = self.rng
+    rows = st["rows"]
+    A, C = self.col(st, "A"), self.col(st, "C")
+    lid, mid = self.ids["L"], self.ids["M"]
+    x = rng.random()
+    if not rows or x < 0.12:
+      vals = {"A": rng.choice(LK_KEYS), "C": rng.choice(LK_KEYS)}
+      if rng.random() < 0.25:
+        vals[rng.choice([c for c in (lid, mid) if c])] = rng.randint(50, 90)
+      return "t_add", ["AddRecord", T, None, vals]
+    if x < 0.20 and len(rows) > 2:
+      return "t_remove", ["RemoveRecord", T, rng.choice(rows)]
+    r = rng.choice(rows)
+    if x < 0.50:
+      # the key SOURCE of the row (L's dependency), or - self-table lookups - the key column itself
+      cid = rng.choice(["A", "A", "C"])
+      cur = (A if cid == "A" else C)[r]
+      used = set(v for v in (C if cid == "A" else A).values() if isinstance(v, int))
+      return "t_dep", ["UpdateRecord", T, r, {cid: self.other(cur, used) if rng.random() < 0.85 else cur}]
+    if x < 0.62 and len(rows) >= 2:
+      rs = rng.sample(rows, min(len(rows), rng.choice([2, 3])))
+      cid = rng.choice(["A", "C"])
+      src = A if cid == "A" else C
+      return "t_dep_bulk", ["BulkUpdateRecord", T, rs, {cid: [src[q] if rng.random() < 0.4 else self.other(src[q]) for q in rs]}]
+    if x < 0.72:
+      return "t_other", ["UpdateRecord", T, r, {"D": rng.choice(["x", "y", "foo", ""])}]
+    cols = [c for c in (lid, mid, self.ids["N"]) if c]
+    c = rng.choice(cols)
+    vals = {c: rng.randint(50, 90) if rng.random() < 0.8 else self.col(st, c)[r]}
+    if rng.random() < 0.5:
+      vals["A"] = self.other(A[r])
+    return "t_explicit", ["UpdateRecord", T, r, vals]
+
+  def bundle(self, live, st):
+    rng = self.rng
+    x = rng.random()
+    if x < 0.40:
+      k, ua = self.k_edit(live, st)
+      return k, [ua]
+    if x < 0.70:
+      k, ua = self.t_edit(st)
+      return k, [ua]
+    if x < 0.90:
+      k1, u1 = self.k_edit(live, st)
+      if rng.random() < 0.3:
+        k2, u2 = self.k_edit(live, st)
+        if u1[0] == "RemoveRecord" or u2[0] == "RemoveRecord":
+          return k1, [u1]
+        return "k+k", [u1, u2]
+      k2, u2 = self.t_edit(st)
+      return ("k+t", [u1, u2]) if rng.random() < 0.5 else ("t+k", [u2, u1])
+    if self.last:
+      return "undo", [["ApplyUndoActions", self.last]]
+    k, ua = self.k_edit(live, st)
+    return k, [ua]
+
+
+def run_lk_history(seed_key, n_bundles):
+  rng = random.Random(seed_key)
+  live = Live()
+  J = Judge()
+  spec = lk_random_spec(rng)
+  k_rows = [(rng.choice(LK_KEYS[:5]), rng.randint(0, 99)) for _ in range(rng.choice([3, 4, 5]))]
+  t_rows = [(rng.choice([k for k, _ in k_rows] + LK_KEYS[:5]), rng.choice(LK_KEYS[:5])) for _ in range(rng.choice([2, 3, 4]))]
+  ids = lk_setup(live, J, spec, k_rows, t_rows)
+  g = LkGen(rng, ids, "T." in spec["lform"])
+  for _ in range(n_bundles):
+    st = live.read()
+    if st is None:
+      break
+    kind, bundle = g.bundle(live, st)
+    J.count("lk_kind:" + kind)
+    res = judge_bundle(live, bundle, J, len(live.log))
+    if res.ok:
+      g.last = res.raw_undo
+    else:
+      g.last = None
+      judge_bundle(live, [["Calculate"]], J, len(live.log))
+  return live, J
+
+
+def lookup_witnesses():
+  """Fixed inputs of the lookup family, every run: for each lookup formula x configuration of L x order
+  of ids, a document with 3 rows of T; then edits of the looked-up table that change the key set of keys
+  the rows looked up (change the key of the matched record, add / remove a record with the key, move a
+  record onto the key), an edit of a non-key cell, and edits of T that DO recalculate (L's dependency
+  changes: L must be recomputed and - its value changing - M, then N)."""
+  out = []
+  for lform in LK_FORMULAS:
+    key = "A" if "K." in lform else "C"
+    for (lwhen, ldeps, mdeps) in ((0, [key], ["L"]), (0, [key, "self"], None), (0, [key, "self"], ["L", "self"]), (2, [], ["L"])):
+      for mfirst in ((False, True) if mdeps else (False,)):
+        def build(lform=lform, lwhen=lwhen, ldeps=ldeps, mdeps=mdeps, mfirst=mfirst, key=key):
+          live, J = Live(), Judge()
+          spec = {"lform": lform, "lwhen": lwhen, "ldeps": ldeps, "mdeps": mdeps, "mfirst": mfirst, "chain": bool(mdeps) and not mfirst}
+          lk_setup(live, J, spec, [(1, 10), (2, 20), (3, 30)], [(2, 1), (1, 2), (2, 2)])
+          if key == "A":
+            bundles = [[["UpdateRecord", "K", 2, {"k": 9}]],                 # the matched record loses the key
+                       [["AddRecord", "K", None, {"k": 2, "v": 99}]],        # a record with the looked-up key appears
+                       [["UpdateRecord", "K", 4, {"v": 100}]],               # non-key cell
+                       [["RemoveRecord", "K", 4]],
+                       [["UpdateRecord", "K", 1, {"k": 2}]],                 # a record moves onto / off looked-up keys
+                       [["BulkUpdateRecord", "K", [1, 3], {"k": [1, 2]}]],
+                       [["UpdateRecord", T, 1, {"A": 1}]],                   # L's dependency changes
+                       [["UpdateRecord", "K", 1, {"k": 5}], ["UpdateRecord", T, 2, {"D": "x"}]],
+                       [["UpdateRecord", T, 3, {"A": 3}], ["UpdateRecord", "K", 3, {"k": 3}]],
+                       [["UpdateRecord", "K", 3, {"k": 4}]]]
+          else:
+            bundles = [[["UpdateRecord", T, 2, {"A": 5}]],                   # row 2 loses key 1 (looked up by row 1)
+                       [["AddRecord", T, None, {"A": 2, "C": 6}]],           # a record with looked-up key 2 appears
+                       [["UpdateRecord", T, 4, {"D": "x"}]],
+                       [["RemoveRecord", T, 4]],
+                       [["UpdateRecord", T, 2, {"A": 2}]],
+                       [["BulkUpdateRecord", T, [1, 3], {"A": [1, 1]}]],
+                       [["UpdateRecord", T, 1, {"C": 5}]],                   # L's dependency changes
+                       [["UpdateRecord", T, 3, {"A": 2}]]]
+          return live, J, bundles
+        out.append(("%s/%s%s/M%s%s" % (lform, WHEN_NAME[lwhen], "+".join([""] + ldeps), "+".join(mdeps or ["-"]),
+                                       " first" if mfirst else ""), build))
+  return out
+
+
+def run_lookup_witness(idx):
+  name, build = lookup_witnesses()[idx]
+  live, J, bundles = build()
+  n0 = len(J.findings)
+  for b in bundles:
+    judge_bundle(live, b, J, len(live.log))
+  J.count("lookup_witness_" + ("held" if len(J.findings) == n0 else "failed"))
+  J.findings = [(s_, "[lookup witness %s] %s" % (name, d), bi) for (s_, d, bi) in J.findings]
+  return live, J
+
+
 # ------------------------------------------------------------------------------- exhaustive small scope
 
 READER_VARIANTS = [[], ["before"], ["after"], ["chain"], ["chain2"], ["lookup"], ["lookup1", "lookupA"], ["other"], ["summary"],
@@ -1397,6 +1794,10 @@ def _worker(args):
         live, J = run_history("C15/%s" % it[0], it[1])
       elif kind == "rwit":
         live, J = run_reader_witness(it[0])
+      elif kind == "lk":
+        live, J = run_lk_history("C15/lk/%s" % it[0], it[1])
+      elif kind == "lwit":
+        live, J = run_lookup_witness(it[0])
       else:
         live, J = small_scope(it[0], it[1], random.Random("C15/small/%s/%s/%s" % (it[0], it[2], "+".join(it[3]))), it[3])
       done.append((live, J))
@@ -1540,10 +1941,25 @@ def run(ck):
              "(quick: all 9 kinds for DEFAULT [A] / DEFAULT [F] / MANUAL_UPDATES [] / DEFAULT [A, self], a third of the kinds, "
              "rotating with the seed, for the other configurations), and ordered pairs of it per configuration x 10 reader "
              "variants (quick: 18 sampled pairs, one variant per configuration); plus fixed reader witnesses (9 kinds x 3 "
-             "configurations); "
+             "configurations); plus the LOOKUP FAMILY (quick: 48 histories x 24 bundles + 35 fixed witnesses): a second table K, a "
+             "trigger column L whose formula performs a lookup into K or into T itself (5 formulas; DEFAULT [key source] / "
+             "[.., self] / [self] / [] / MANUAL_UPDATES / NEVER), a DEFAULT trigger column M listing L in recalcDeps (id before / "
+             "after L's), optionally N listing M; bundles: 40% edits of K (45% key changes, 75% of them of keys looked up by "
+             "rows of T; bulk key changes, adds / removals of records with looked-up keys, non-key cells), 30% edits of T, 20% "
+             "both in either order, 10% undo; "
              "non-trivial = a bundle in which some trigger cell must be recalculated or is set explicitly; distinct by bundle")
   ck.assumptions = ["recalcDeps are plain data columns, formula columns over plain data columns, or the column itself "
-                    "(never a column that reads a trigger column)",
+                    "(never a column that reads a trigger column); in the lookup family also ANOTHER trigger column (acyclic)",
+                    "lookup family (trigger formulas performing lookups, trigger columns listing another trigger column in "
+                    "recalcDeps, edits of lookup keys in the looked-up table): judged by the DIRECT ORACLE; a recalcDeps cell that "
+                    "is a trigger cell counts as changed / written / recomputed according to the real outcome of that cell "
+                    "(request + formula tracer), itself judged by its own clauses; the Lean model (one trigger column per op, no "
+                    "lookups) is tied only for columns whose recalcDeps contain no other trigger column (K edits = user actions "
+                    "that do not touch T); columns listing another trigger column are NOT tied (tie_skipped_trigger_dep)",
+                    "a recomputed trigger dependency is attributed to the only user action of the bundle naming rows of T; with "
+                    "several such user actions (not generated in the lookup family) it only moves the cell to MAY",
+                    "counters lk_keychange_* (trigger cells whose formula looked up a key whose key set the bundle changed, and "
+                    "how many of them / of their dependents the reference puts in the 'never' clause) are coverage evidence only",
                     "written values have the column's type; row ids within one request distinct",
                     "model tie skipped (oracle still applied) for bundles with record edits after a schema change",
                     "readers of trigger columns (nested first visits of the column's node before its own evaluation: formula "
@@ -1575,6 +1991,11 @@ def run(ck):
         items.append(("small", (ci, [], ck.seed, [k])))
   for i in range(len(reader_witnesses())):
     items.append(("rwit", (i,)))
+  # the lookup family: trigger formulas that perform lookups + trigger columns depending on trigger columns
+  for i in range(48 if quick else 1500):
+    items.append(("lk", ("%d/%d" % (ck.seed, i), 24 if quick else 40)))
+  for i in range(len(lookup_witnesses())):
+    items.append(("lwit", (i,)))
   # one job per worker process: the model driver is started once per job
   W = min(16, os.cpu_count() or 1) if not quick else min(12, os.cpu_count() or 1)
   items.sort(key=lambda x: x[0])
